@@ -563,6 +563,127 @@ pub fn run(ctx: &Ctx) -> Report {
                 ("example_history", J::s("P1a,D12,D23,P3a,D13")),
             ]));
         }
+        // long chains of double large primes hanging from one partial and closed by another:
+        // P(L0), D(L0,L1), ..., D(L[k-1],Lk), P(Lk) for k = 1..9 (cycle lengths up to 11), replayed
+        // in a structured set of orders (thorough: EVERY order of the 9 relations of k = 7)
+        {
+            let mut lg: Vec<u64> = vec![];
+            let mut c = 211;
+            while lg.len() < 10 && c < MAXLARGE {
+                if rm::is_prime_u64(c) && m.n % c != 0 && try_make_rel(&m, &fbp, c, 1, false, false, 3000).is_some() {
+                    lg.push(c);
+                }
+                c += 2;
+            }
+            let kmax = lg.len().saturating_sub(1).min(9);
+            for k in 1..=kmax {
+                let mut chain: Vec<Sym> = vec![];
+                chain.push(Sym { name: format!("P{}", lg[0]), rel: make_rel(&m, &fbp, lg[0], 11, false, false), pq: None });
+                let mut ok = true;
+                for i in 0..k {
+                    match try_make_rel(&m, &fbp, lg[i] * lg[i + 1], 300 + 17 * i as u64, false, i % 3 == 1, 20000) {
+                        Some(r) => chain.push(Sym { name: format!("D{}-{}", lg[i], lg[i + 1]), rel: r, pq: Some(if i % 2 == 0 { (lg[i], lg[i + 1]) } else { (lg[i + 1], lg[i]) }) }),
+                        None => {
+                            ok = false;
+                            break;
+                        }
+                    }
+                }
+                if !ok {
+                    continue;
+                }
+                chain.push(Sym { name: format!("P{}'", lg[k]), rel: make_rel(&m, &fbp, lg[k], 777, false, false), pq: None });
+                let len = chain.len();
+                let mut orders: Vec<Vec<usize>> = vec![];
+                let seq: Vec<usize> = (0..len).collect();
+                for r in 0..len {
+                    let mut o = seq.clone();
+                    o.rotate_left(r);
+                    orders.push(o.clone());
+                    o.reverse();
+                    orders.push(o);
+                }
+                // evens then odds, outside-in, inside-out
+                orders.push(seq.iter().cloned().filter(|i| i % 2 == 0).chain(seq.iter().cloned().filter(|i| i % 2 == 1)).collect());
+                let mut oi = vec![];
+                let (mut lo, mut hi) = (0usize, len - 1);
+                while lo <= hi {
+                    oi.push(lo);
+                    if lo != hi {
+                        oi.push(hi);
+                    }
+                    lo += 1;
+                    if hi == 0 {
+                        break;
+                    }
+                    hi -= 1;
+                }
+                orders.push(oi.clone());
+                oi.reverse();
+                orders.push(oi);
+                if !ctx.quick() && k == 7 {
+                    // every permutation of the 9 relations
+                    let mut perm: Vec<usize> = (0..len).collect();
+                    let mut cnt = vec![0usize; len];
+                    orders.push(perm.clone());
+                    let mut i = 0;
+                    while i < len {
+                        if cnt[i] < i {
+                            if i % 2 == 0 {
+                                perm.swap(0, i);
+                            } else {
+                                perm.swap(cnt[i], i);
+                            }
+                            orders.push(perm.clone());
+                            cnt[i] += 1;
+                            i = 0;
+                        } else {
+                            cnt[i] = 0;
+                            i += 1;
+                        }
+                    }
+                }
+                let cnames: Vec<String> = chain.iter().map(|s| s.name.clone()).collect();
+                let res: Vec<(u64, Vec<Violation11>)> = orders
+                    .par_chunks(512)
+                    .map(|ch| {
+                        let mut viol = vec![];
+                        let mut adds = 0;
+                        for h in ch {
+                            adds += h.len() as u64;
+                            match replay_history(&m, fb.len(), &chain, h) {
+                                Err(p) => viol.push(Violation11 {
+                                    key: format!("modulus={};what=panic;site={};part=long-chain", m.name, p.site),
+                                    what: format!("chain of {} doubles, order {:?} of [{}] on n={}: panic {}", k, h, cnames.join(","), m.n, p.short()),
+                                    hist: h.clone(),
+                                }),
+                                Ok(rs) => {
+                                    check_state(&m, &rs, &chain, h, &mut viol);
+                                    if rs.cycles.len() != 1 {
+                                        viol.push(Violation11 {
+                                            key: format!("modulus={};what=chain-not-closed", m.name),
+                                            what: format!("chain of {} doubles between two partials, order {:?}: {} relations published (1 expected)", k, h, rs.cycles.len()),
+                                            hist: h.clone(),
+                                        });
+                                    }
+                                }
+                            }
+                            if viol.len() > 2 {
+                                break;
+                            }
+                        }
+                        (adds, viol)
+                    })
+                    .collect();
+                total_hist += orders.len() as u64;
+                for (a, v) in res {
+                    total_adds += a;
+                    for x in v.into_iter().take(2) {
+                        all_viol.lock().unwrap().push((m.name.to_string(), x, cnames.clone()));
+                    }
+                }
+            }
+        }
         // final step on a full-size relation set: fb + 48 distinct complete relations
         {
             let mut rels = vec![];
